@@ -315,6 +315,7 @@ def fresh_like(ip, v, name, kind=None):
                 ctx.assume(t >= 0)
                 ctx.assume(z3.Implies(n == 0, t == 0))
             r.meas[mn] = t
+            m.link(ctx, r)
         return r
     if isinstance(v, SymMap):
         m = SymMap(ctx.fresh(name + '_dom', v.dom.sort()), ctx.fresh(name + '_val', v.val.sort()), v.kkind, v.vkind,
